@@ -9,9 +9,9 @@ RL = "internal/ratelimiter"
 MAIN = "cmd/helios"
 
 ENGINES = [
-    dict(name="S", path="engine/shim/vrt", serves_properties=["C02", "C04", "C05", "C06", "C07", "C08", "C09", "C11", "C12", "C13", "C19", "C20"],
+    dict(name="S", path="engine/shim/vrt", serves_properties=["C02", "C03", "C04", "C05", "C06", "C07", "C08", "C09", "C11", "C12", "C13", "C19", "C20"],
          kind_free_text="controlled cooperative scheduler + stateless replay DFS with preemption bounding over the real Helios code (sync/atomic/time/go/select rewritten onto shims by vgen)"),
-    dict(name="W", path="engine/shim/wire", serves_properties=["C01", "C10", "C14", "C15", "C16", "C17", "C18", "C20"],
+    dict(name="W", path="engine/shim/wire", serves_properties=["C01", "C03", "C10", "C14", "C15", "C16", "C17", "C18", "C20"],
          kind_free_text="exhaustive enumeration of finite input / configuration / fault-sequence products over real connections: raw-socket HTTP/1.1 client, scripted backends on loopback listeners, the real handler chain behind the real http.Server; differential and reference oracles on the exchanged bytes"),
     dict(name="H", path="engine/shim/vh/hrun.go", serves_properties=["C02", "C04", "C05", "C06", "C07", "C08", "C09", "C11", "C12", "C13", "C19", "C20"],
          kind_free_text="explicit-state breadth-first search over event histories of the real objects under a virtual clock, reflective state fingerprint for deduplication, reference-model / monitor oracle on every transition"),
@@ -241,6 +241,18 @@ CHECKS = {
         note="Refusing is always acceptable where the reference says 'either' (configurations with malformed entries); 'served' means any status other than 401/403.",
         jobs=[
             dict(name="c10w", part="W", pkg=MAIN, run="TestVerifC10", mode="plain", gomaxprocs=2, shards=dict(quick=12, thorough=16), timeout=dict(quick=600, thorough=3000)),
+        ],
+        assumptions=[],
+    ),
+    "C03": dict(
+        level="fault_enumeration",
+        engine="W+H",
+        technique="exhaustive enumeration of fault sequences over real connections (scripted misbehaving backends, aborting clients) with a recovery oracle + explicit-state BFS over fault histories under virtual time with a recovery probe from every reachable state",
+        text="Wire part: for each configuration (breaker / passive checks / limiter / plugin chain logging,size_limit,gzip on or off; round_robin and least_connections, thorough all 32 combinations plus the other strategies) a fresh Helios instance with every configured timeout at 1 s is put in front of two raw TCP backends that misbehave as scripted; every fault of {refuse, hang before headers, reset after headers, short body, garbage status line, 500, stalled body, client aborts upload, client aborts download} is applied once, twice in sequence and twice concurrently (thorough: every ordered pair, triples for breaker configurations); each faulted request must end (response or closed connection) within 10 s, the server must log no handler panic, after the faults stop and window / breaker timeout elapse the last three of five probes must be 200 and both gauges must read 0. Virtual-time part: BFS over fault histories {ok, 500, refused, aborted, clock steps} with all eight feature combinations on the real wiring under the scheduler: no deadlock or panic on any step and a recovery probe from every reachable state.",
+        note="Real time is used only as a failure detector with a 10x margin; a failure must reproduce five times (the 12 s stalled-body case: twice) to be reported; the known finding about stalled response bodies is listed in KNOWN_FINDINGS.txt.",
+        jobs=[
+            dict(name="c03w", part="W", pkg=MAIN, run="TestVerifC03W", mode="plain", gomaxprocs=4, shards=dict(quick=16, thorough=16), timeout=dict(quick=900, thorough=3400)),
+            dict(name="c03s", part="S", pkg=LB, run="TestVerifC03S", mode="instr", shards=dict(quick=16, thorough=16), timeout=dict(quick=600, thorough=3000)),
         ],
         assumptions=[],
     ),
